@@ -9,7 +9,7 @@ EXPLANATION = (
     "quaternions / angles / measurements / offsets at once, that the tangent of every error component equals entry [i][j] "
     "of the reported Jacobian."
 )
-BOUNDS = "8 edge kinds (fresh edge, and after a history: all queries evaluated once, then vertices moved in place / rebound; both vertices marked fixed) x 2 vertices x every error component x every perturbation direction; exact real arithmetic (no rounding); SE(2) wrap excluded (derivative taken on the branch k=const)"
+BOUNDS = "8 edge kinds (fresh edge, and after a history: all queries evaluated once, then vertices moved in place / rebound; both vertices marked fixed; arbitrary symmetric information matrix) x 2 vertices x every error component x every perturbation direction; exact real arithmetic (no rounding); SE(2) wrap excluded (derivative taken on the branch k=const)"
 OUTSIDE = "floating-point rounding; the measure-zero set where the SE(2) angular error wraps"
 ASSUMPTIONS = [
     "dual-number semantics of + - * / sqrt cos sin is the derivative (validated per run against a central difference of the real calc_error on float64)",
@@ -37,7 +37,14 @@ def _move(P, g, e, v1, v2, mode):
 
 def _case(ek, mode=None):
     def fn(P, g):
-        e, v1, v2 = mk_edge(P, g, ek)
+        if mode == "anyinfo":
+            # an ARBITRARY symmetric information matrix (zero rows, rank deficient, indefinite): the Jacobian is the derivative
+            # of the error, which does not depend on the information
+            from .common import error_dim
+
+            e, v1, v2 = mk_edge(P, g, ek, info=P.sym_matrix("om", error_dim(ek)))
+        else:
+            e, v1, v2 = mk_edge(P, g, ek)
         if mode == "fixedflags":
             # the reported Jacobian is the derivative of the error whether or not the vertex is marked fixed
             v1.fixed, v2.fixed = True, True
@@ -66,6 +73,6 @@ def cases(tier):
     out = []
     for ek in EDGE_KINDS:
         out.append(Case("%s-%s" % ek, _case(ek), timeout=20, old_timeout=30, validate=2 if tier == "quick" else 6))
-        for mode in ("inplace", "rebind", "fixedflags"):
+        for mode in ("inplace", "rebind", "fixedflags", "anyinfo"):
             out.append(Case("history-%s-%s-%s" % (mode, ek[0], ek[1]), _case(ek, mode), timeout=20, old_timeout=30, validate=1))
     return out
